@@ -218,7 +218,10 @@ package quickfix
 // header tags fillDefaultHeader may set
 //@ spec defhdr(t Tag) bool = t == 8 || t == 49 || t == 50 || t == 142 || t == 56 || t == 57 || t == 143 || t == 52 || t == 369
 //@ func (s *session) fillDefaultHeader [C02,C10]
-//@   requires sessfull(s) && msgsafe(msg) && (inReplyTo != nil ==> msgok(inReplyTo) && msgsep(msg, inReplyTo))
+//@   requires @sess sessfull(s)
+//@   requires @msg msgsafe(msg)
+//@   requires @reply inReplyTo != nil ==> msgok(inReplyTo)
+//@   requires @sep inReplyTo != nil ==> msgsep(msg, inReplyTo)
 //@   ensures @wf msgsafe(msg)
 //@   ensures @set fhas(msg.Header.FieldMap, 8) && fhas(msg.Header.FieldMap, 49) && fhas(msg.Header.FieldMap, 56) && fhas(msg.Header.FieldMap, 52)
 //@   ensures @others forall t Tag :: !defhdr(t) ==> (fhas(msg.Header.FieldMap, t) <==> old(fhas(msg.Header.FieldMap, t))) && msg.Header.tagLookup[t] == old(msg.Header.tagLookup[t])
@@ -235,7 +238,10 @@ package quickfix
 
 // prepMessageForSend: the message is given the next outbound number and that number is consumed exactly once
 //@ func (s *session) prepMessageForSend [C02,C07]
-//@   requires sessfull(s) && msgsafe(msg) && (inReplyTo != nil ==> msgok(inReplyTo) && msgsep(msg, inReplyTo))
+//@   requires @sess sessfull(s)
+//@   requires @msg msgsafe(msg)
+//@   requires @reply inReplyTo != nil ==> msgok(inReplyTo)
+//@   requires @sep inReplyTo != nil ==> msgsep(msg, inReplyTo)
 //@   ensures @wf msgsafe(msg) && sessfull(s)
 //@   ensures @number err == nil && !s.sentReset ==> s.store.#S == wrap64(old(s.store.#S) + 1) && s.store.#T == old(s.store.#T)
 //@   ensures @noreset !old(s.sentReset) && s.sentReset ==> err != nil || (s.store.#S == 2 && s.store.#T == 1)
@@ -285,7 +291,10 @@ package quickfix
 //@   modifies heap Gh.chan.sent, s.toSend, s.toSend[*], fresh E.sl.uint8, s.sentReset, s.store.#S, s.store.#T, msg.Header.tags, heap E.quickfix.Tag, msg.Header.tagLookup[*], msg.Body.tags, msg.Body.tagLookup[*], msg.Trailer.tags, msg.Trailer.tagLookup[*], heap H.quickfix.TagValue.*, fresh E.uint8, fresh H.quickfix.FIXUTCTimestamp.*, fresh H.time.Time.*, fresh H.quickfix.messageRejectError.*, fresh P.quickfix.Tag, fresh P.quickfix.FIXInt, fresh P.quickfix.FIXBoolean, fresh H.bytes.Buffer.*
 
 //@ func (s *session) sendInReplyTo [C02,C07,C08]
-//@   requires sessfull(s) && msgsafe(msg) && (inReplyTo != nil ==> msgok(inReplyTo) && msgsep(msg, inReplyTo))
+//@   requires @sess sessfull(s)
+//@   requires @msg msgsafe(msg)
+//@   requires @reply inReplyTo != nil ==> msgok(inReplyTo)
+//@   requires @sep inReplyTo != nil ==> msgsep(msg, inReplyTo)
 //@   ensures @wf msgsafe(msg) && sessfull(s)
 //@   ensures @number result == nil && !s.sentReset ==> s.store.#S == wrap64(old(s.store.#S) + 1) && s.store.#T == old(s.store.#T)
 //@   ensures @state s.State == old(s.State) && s.messageOut == old(s.messageOut)
@@ -301,7 +310,10 @@ package quickfix
 //@   modifies heap Gh.chan.sent, s.toSend, s.toSend[*], fresh E.sl.uint8, s.sentReset, s.store.#S, s.store.#T, msg.Header.tags, heap E.quickfix.Tag, msg.Header.tagLookup[*], msg.Body.tags, msg.Body.tagLookup[*], msg.Trailer.tags, msg.Trailer.tagLookup[*], heap H.quickfix.TagValue.*, fresh E.uint8, fresh H.quickfix.FIXUTCTimestamp.*, fresh H.time.Time.*, fresh H.quickfix.messageRejectError.*, fresh P.quickfix.Tag, fresh P.quickfix.FIXInt, fresh P.quickfix.FIXBoolean, fresh H.bytes.Buffer.*
 
 //@ func (s *session) dropAndSendInReplyTo [C02,C07,C08]
-//@   requires sessfull(s) && msgsafe(msg) && (inReplyTo != nil ==> msgok(inReplyTo) && msgsep(msg, inReplyTo))
+//@   requires @sess sessfull(s)
+//@   requires @msg msgsafe(msg)
+//@   requires @reply inReplyTo != nil ==> msgok(inReplyTo)
+//@   requires @sep inReplyTo != nil ==> msgsep(msg, inReplyTo)
 //@   ensures @wf msgsafe(msg) && sessfull(s)
 //@   ensures @number result == nil && !s.sentReset ==> s.store.#S == wrap64(old(s.store.#S) + 1) && s.store.#T == old(s.store.#T)
 //@   ensures @noreset !old(s.sentReset) && s.sentReset ==> result != nil || (s.store.#S == 2 && s.store.#T == 1)
@@ -409,3 +421,41 @@ package quickfix
 //@   ensures @body forall t Tag :: !fhas(result.Body.FieldMap, t) && !fhas(result.Trailer.FieldMap, t)
 //@   ensures @notype !fhas(result.Header.FieldMap, 35) && !fhas(result.Header.FieldMap, 34)
 //@   modifies fresh H.quickfix.Message.*, fresh H.quickfix.FieldMap.*, fresh H.quickfix.tagSort.*, fresh H.sync.RWMutex.*, fresh H.sync.Mutex.*, fresh MH.quickfix.Tag.quickfix.field, fresh MV.quickfix.Tag.quickfix.field, fresh H.time.Time.*, fresh E.uint8, fresh H.quickfix.TagValue.*, fresh E.quickfix.Tag, fresh P.quickfix.FIXString, fresh H.quickfix.messageRejectError.*, fresh P.quickfix.Tag, fresh P.quickfix.Message
+
+// the reject-error interface is open (applications return their own): its methods are taken to be read-only and
+// a function of the receiver (assumption about user code)
+//@ uspec rejreasonof(e MessageRejectError) int
+//@ uspec rejisbusiness(e MessageRejectError) bool
+//@ iface MessageRejectError.RejectReason(recv)
+//@   pure
+//@   ensures result == rejreasonof(recv)
+//@ iface MessageRejectError.IsBusinessReject(recv)
+//@   pure
+//@   ensures result == rejisbusiness(recv)
+//@ iface MessageRejectError.BusinessRejectRefID(recv)
+//@   pure
+//@ iface MessageRejectError.RefTagID(recv)
+//@   pure
+//@ iface MessageRejectError.Error(recv)
+//@   pure
+
+// doReject: the reply quotes the offending MsgSeqNum and is sent as a reply to the rejected message (C06).
+// Not stated here (the proof did not go through within the time limit): the MsgType and reason fields of the reply.
+//@ spec onebyte(d []byte, c int) bool = len(d) == 1 && d[0] == c
+//@ func (s *session) doReject [C06]
+//@   stepframes
+//@   requires sessfull(s) && msgok(msg) && rej != nil
+//@   atcall SetField @reply msgsafe(reply)
+//@   atcall SetField @msg msgok(msg)
+//@   atcall SetField @sep msgsep(reply, msg)
+//@   atcall SetField @sess sessfull(s)
+//@   atcall OnEventf @reply msgsafe(reply)
+//@   atcall OnEventf @msg msgok(msg)
+//@   atcall OnEventf @sep msgsep(reply, msg)
+//@   atcall OnEventf @sess sessfull(s)
+//@   atcall SetField @new fresh(reply.Header.tagLookup) && fresh(reply.Body.tagLookup) && fresh(reply.Trailer.tagLookup) && fresh(reply)
+//@   atcall sendInReplyTo @refseq fhas(msg.Header.FieldMap, 34) && isint(fval(msg.Header.FieldMap, 34)) ==> fhas(arg1.Body.FieldMap, 45) && fint(arg1.Body.FieldMap, 45) == fint(msg.Header.FieldMap, 34)
+//@   atcall sendInReplyTo @inreply arg2 == msg
+//@   ensures @number result == nil && !s.sentReset ==> s.store.#S == wrap64(old(s.store.#S) + 1) && s.store.#T == old(s.store.#T)
+//@   ensures @state s.State == old(s.State) && s.messageOut == old(s.messageOut) && sessfull(s)
+//@   modifies heap Gh.chan.sent, s.toSend, s.toSend[*], fresh E.sl.uint8, s.sentReset, s.store.#S, s.store.#T, heap E.quickfix.Tag, heap H.quickfix.TagValue.*, fresh E.uint8, fresh H.quickfix.FIXUTCTimestamp.*, fresh H.time.Time.*, fresh H.quickfix.messageRejectError.*, fresh P.quickfix.Tag, fresh P.quickfix.FIXInt, fresh P.quickfix.FIXBoolean, fresh P.quickfix.FIXString, fresh H.bytes.Buffer.*, fresh H.quickfix.Message.*, fresh H.quickfix.FieldMap.*, fresh H.quickfix.tagSort.*, fresh H.sync.RWMutex.*, fresh H.sync.Mutex.*, fresh MH.quickfix.Tag.quickfix.field, fresh P.quickfix.Message, fresh P.string, fresh E.any
